@@ -273,6 +273,43 @@ PROPS["C14"] = {
     "thorough": {"scale": 10, "shards": 16, "timeout": 1500, "fuzz": [("FuzzURL", 60), ("FuzzPrefixHostPort", 30)]},
 }
 
+PROPS["C15"] = {
+    "pkg": "c15",
+    "technique": "fault-injecting property testing: scripted misbehaving readers/writers (short reads, (0,nil), data+error, EOF, failing writes) x limits x call-size sequences, against a stream-prefix + allowance model",
+    "level_text": ("Generated fault sequences against a model: the underlying reader never receives a buffer larger than the remaining allowance, the delivered bytes are "
+                   "a prefix of the stream (each byte encodes its offset), every (n, err) before exhaustion is exactly what the underlying reader returned for that "
+                   "call, and once n bytes were delivered every further Read returns (0, *LimitError{n}) without requesting data. TruncatedWriter: the slices handed to "
+                   "the underlying writer concatenate to exactly the first min(total, n) bytes after every call, every call reports len(b), the error is the "
+                   "underlying writer's for that call. The fault alphabet is {short read, (0,nil), data+error, error alone, EOF alone, EOF with data; failing write "
+                   "reporting 0..k bytes}. Exploration over fault sequences."),
+    "level_note": "Trusted: the scripted readers/writers stay within the io.Reader / io.Writer contracts; a zero-length pass-through read after the limit is not flagged.",
+    "rule": ("Streams of 0-200 bytes; limit in {0, 1, len-1, len, len+1, 2 len, len/2, 2^63, 2^64-1}; 0-14 scripted steps; 1-20 Read calls with buffers of 0-64 bytes "
+             "continuing after the limit or the error. Non-trivial: a call whose buffer straddles the remaining allowance, a fault before the limit, or len == limit. "
+             "Writer: 0-14 writes of 0-64 bytes, limit 0..total+2 / total / MaxUint; non-trivial: a write straddles the limit, the underlying writer failed, or "
+             "total == limit. distinct = distinct case."),
+    "assumptions": [],
+    "expect_classes": {"read:buffer-straddles-allowance": ("c15.read", 0.1), "write:a-write-straddles-the-limit": ("c15.write", 0.2)},
+    "quick": {"scale": 2, "shards": 1, "timeout": 300},
+    "thorough": {"scale": 12, "shards": 16, "timeout": 1500},
+}
+
+PROPS["C16"] = {
+    "pkg": "c16",
+    "technique": "two-run non-interference property testing: the same URL with two independently generated userinfos must redact to identical text; component-equality, input-snapshot and error-shape oracles",
+    "level_text": ("Generated-input search with a non-interference oracle: for URLs (parsed from the URL grammar or built field by field incl. Opaque, RawPath, OmitHost, "
+                   "ForceQuery, RawFragment, with query/fragment optionally echoing the secret) and two independent userinfos, RedactUserinfo's results must have "
+                   "identical String(), the fixed mask as userinfo, every other field equal to the input, the input deep-equal to its snapshot, and a URL without "
+                   "userinfo returned as the same pointer. RedactUserinfoInURLError must rewrite only a top-level *url.Error (Op and Err unchanged) when the URL has "
+                   "userinfo, and leave nil, plain and wrapped errors untouched. Exploration."),
+    "level_note": "Trusted: net/url String(); reflect.DeepEqual for the snapshots.",
+    "rule": ("Userinfo: nil / user only / user+password with names and passwords from {empty, ASCII, the mask itself, characters needing escapes, Unicode, random}. "
+             "Non-trivial: both userinfos non-nil and different; distinct = distinct case."),
+    "assumptions": ["a wrapped *url.Error is not top-level and must stay untouched (the statement says top-level)"],
+    "expect_classes": {"two-different-userinfos": 0.3},
+    "quick": {"scale": 3, "shards": 1, "timeout": 300},
+    "thorough": {"scale": 12, "shards": 16, "timeout": 1500},
+}
+
 ALL_IDS = ["C%02d" % i for i in range(1, 21)]
 NOT_APPLICABLE = [
     {"property_id": pid, "reason": "check not built yet in this revision of the harness (work in progress; see DESIGN.md section 9)"}
